@@ -44,11 +44,42 @@ func c05ParseCheck(c c05Text) fw.Outcome {
 	_ = obj.Center()
 	_ = obj.Empty()
 	obj.ForEach(func(g geojson.Object) bool { return true })
+	c05KindSpecific(obj)
 	if cl, ok := obj.(geojson.Collection); ok {
 		_ = cl.Children()
 		_ = cl.Indexed()
 	}
 	return fw.OK("parse/accepted", true)
+}
+
+// c05KindSpecific calls the accessors that only some kinds have (Z, IsPoint, Base, Meters, Polygon ...): total as well.
+func c05KindSpecific(obj geojson.Object) {
+	_, _ = geojson.IsPoint(obj)
+	switch x := obj.(type) {
+	case *geojson.Point:
+		_, _, _ = x.Z(), x.Base(), x.IsSimple()
+	case *geojson.SimplePoint:
+		_ = x.Base()
+	case *geojson.LineString:
+		_ = x.Base()
+	case *geojson.Polygon:
+		_ = x.Base()
+	case *geojson.Rect:
+		_ = x.Base()
+	case *geojson.Feature:
+		if b := x.Base(); b != nil {
+			c05KindSpecific(b)
+		}
+	case *geojson.Circle:
+		_, _, _ = x.Meters(), x.Haversine(), x.HaversineTo(geometry.Point{X: 1, Y: 2})
+		if p := x.Polygon(); p != nil {
+			_ = p.NumPoints()
+		}
+	case geojson.Collection:
+		for _, ch := range x.Children() {
+			c05KindSpecific(ch)
+		}
+	}
 }
 
 func gjsonLooksValid(s string) bool {
@@ -171,6 +202,7 @@ func callEverything(r *fw.Rec, a, b geojson.Object, stop int) {
 	_ = a.AppendJSON(make([]byte, 3, 8))
 	_ = a.NumPoints()
 	_ = a.Members()
+	c05KindSpecific(a)
 	n := 0
 	a.ForEach(func(g geojson.Object) bool { n++; return stop == 0 || n < stop })
 	step("Contains")
